@@ -28,7 +28,7 @@ type Op struct {
 	SeedHex string   `json:"seed,omitempty"`
 	Index   uint32   `json:"index,omitempty"`
 	Path    []uint32 `json:"path,omitempty"`
-	PermAt  int      `json:"perm_at,omitempty"` // n > 0: the n-th collaborator call of this operation fails permanently
+	PermAt  int      `json:"perm_at,omitempty"` // n > 0: during this operation about one candidate in n makes the collaborator fail permanently (keyed by the candidate bytes)
 	Wrapped bool     `json:"wrapped,omitempty"` // the permanent error is wrapped once more
 }
 
@@ -57,6 +57,7 @@ type world struct {
 	wrapped   bool
 	permFired bool
 	totalRej  int
+	opIndex   int
 	totalPerm int
 }
 
@@ -75,6 +76,24 @@ func (w *world) reject(cand []byte) bool {
 	return int(h%1000) < w.cfg.RejectPerMille
 }
 
+// permanent decides, from the candidate bytes alone, whether the collaborator fails permanently on it during the
+// current operation. Keying the fault to the candidate rather than to "the n-th call" keeps the reference model and
+// the implementation in step even if an implementation consults the collaborator more than once per candidate.
+func (w *world) permanent(cand []byte) bool {
+	if w.permAt <= 0 {
+		return false
+	}
+	h := kernel.Mix(w.cfg.PlanSeed, 4242, uint64(w.opIndex))
+	for i := 0; i+8 <= len(cand); i += 8 {
+		var v uint64
+		for j := 0; j < 8; j++ {
+			v = v<<8 | uint64(cand[i+j])
+		}
+		h = kernel.SplitMix64(h ^ v)
+	}
+	return h%uint64(w.permAt) == 0
+}
+
 func (w *world) decide(cand []byte) error {
 	if w.permFired {
 		panic(stallPanic{"the collaborator was called again after it had returned a permanent error"})
@@ -83,7 +102,7 @@ func (w *world) decide(cand []byte) error {
 	if w.calls > maxCallsPerOp {
 		panic(stallPanic{fmt.Sprintf("more than %d collaborator calls in one operation", maxCallsPerOp)})
 	}
-	if w.permAt > 0 && w.calls == w.permAt {
+	if w.permanent(cand) {
 		w.permFired = true
 		w.totalPerm++
 		if w.wrapped {
@@ -232,8 +251,8 @@ func Run(cfg *Config) proto.End {
 
 func (r *runState) step(i int, op *Op, fc faultCurve, mc *ref.SlipCurve) {
 	w := r.w
-	w.calls, w.rejects, w.permAt, w.wrapped, w.permFired = 0, 0, op.PermAt, op.Wrapped, false
-	mf := &ref.Faults{Reject: w.reject, PermanentAt: op.PermAt}
+	w.calls, w.rejects, w.permAt, w.wrapped, w.permFired, w.opIndex = 0, 0, op.PermAt, op.Wrapped, false, i
+	mf := &ref.Faults{Reject: w.reject, Permanent: w.permanent}
 	var (
 		real     *slip10.ExtendedKey
 		err      error
@@ -312,7 +331,7 @@ func (r *runState) step(i int, op *Op, fc faultCurve, mc *ref.SlipCurve) {
 		desc = fmt.Sprintf("Public(#%d", op.Src%len(r.handles))
 	}
 	if op.PermAt > 0 {
-		desc += fmt.Sprintf(",permanent@%d", op.PermAt)
+		desc += fmt.Sprintf(",permanent 1/%d", op.PermAt)
 	}
 	desc += fmt.Sprintf(") retries=%d", w.rejects)
 	sig := map[string]any{"curve": r.cfg.Curve, "api": api, "parent": parent, "hardened": hard}
@@ -349,7 +368,9 @@ func (r *runState) step(i int, op *Op, fc faultCurve, mc *ref.SlipCurve) {
 			r.violate("model-divergence:"+bad, fmt.Sprintf("%s: %s differs from the specification (implementation %s, reference %s)", where, bad, describeReal(real), describeModel(model)), sig)
 			return
 		}
-		if op.Kind != "public" && w.calls != mf.Calls() {
+		if op.Kind != "public" && w.calls < mf.Calls() {
+			// fewer collaborator calls than the specification's retry chain has steps cannot produce the specified key;
+			// more are allowed (an implementation may validate a candidate twice)
 			r.violate("model-divergence:retry-count", fmt.Sprintf("%s: implementation asked the curve %d times, the specification's retry chain has %d steps", where, w.calls, mf.Calls()), sig)
 			return
 		}
@@ -459,17 +480,20 @@ func Gen(seed uint64, tier string) *Config {
 		switch x := r.IntN(10); {
 		case x < 3:
 			ix = pickU(r, 0, 1, 1<<31-1, 1<<31, 1<<31+1, 1<<32-1)
+			if hardBias && r.IntN(3) != 0 {
+				ix |= 1 << 31
+			}
 		default:
 			ix = r.Uint32()
-			if hardBias && r.IntN(4) != 0 {
+			if hardBias && r.IntN(12) != 0 {
 				ix |= 1 << 31
 			}
 		}
 		return ix
 	}
 	perm := func() (int, bool) {
-		if r.IntN(6) == 0 {
-			return 1 + r.IntN(6), r.IntN(3) == 0
+		if r.IntN(5) == 0 {
+			return 1 + r.IntN(8), r.IntN(3) == 0
 		}
 		return 0, false
 	}
